@@ -215,6 +215,9 @@ func runCheck(repo, id, tier string) int {
 		modes := map[string]bool{}
 		tagged := hasProp(fc.Props, id)
 		addModes := func(c *Clause) {
+			if c.Kind == "assumes" {
+				return // assumed clauses give callers facts; they do not select the function for verification
+			}
 			if hasProp(c.Props, id) {
 				tagged = true
 				if len(c.Modes) == 0 {
@@ -288,11 +291,22 @@ func runCheck(repo, id, tier string) int {
 			vcs[it.mode] = vc
 		}
 		vc.obls, vc.trivial, vc.notes = nil, nil, nil
+		t0 := time.Now()
+		if os.Getenv("VCGO_PROGRESS") != "" {
+			if it.lemma != nil {
+				fmt.Fprintf(os.Stderr, "start lemma %s\n", it.lemma.Name)
+			} else {
+				fmt.Fprintf(os.Stderr, "start %s [%s]\n", it.fn.String(), it.mode)
+			}
+		}
 		var rep *FuncReport
 		if it.lemma != nil {
 			rep = vc.proveLemma(it.lemma)
 		} else {
 			rep = vc.verifyFunction(it.fn)
+		}
+		if os.Getenv("VCGO_PROGRESS") != "" {
+			fmt.Fprintf(os.Stderr, "generated %s [%s] in %.1fs: %d obligations, %d steps\n", rep.Key, it.mode, time.Since(t0).Seconds(), len(vc.obls), vc.steps)
 		}
 		reports = append(reports, rep)
 		funcsUnder[rep.Key] = true
@@ -536,6 +550,7 @@ var assumptionText = map[string]string{
 	"A-STD":     "fmt.Errorf/errors.New return non-nil; fmt.Sprintf, time.Date, utf16.Decode are pure functions of their arguments",
 	"A-ZLIB":    "zlib.NewReader/io.Copy inflate exactly the bytes handed to them or report an error",
 	"A-IMG":     "representation invariants of image.* types; color.Color.RGBA returns alpha-premultiplied 16-bit channels",
+	"A-DET":     "assumed contract clauses (kind `assumes`): each extractMetadata result is a deterministic function of the bytes of its input",
 	"A-PAR":     "sync.Once.Do and parallel.RunWorkers behave as documented",
 }
 
